@@ -32,6 +32,7 @@ MONITORS = {
     17: ("staked - penalised - withdrawn differs from effective + withdrawable + maturing", [1, 2]),
     18: ("withdrawable changed by something else than entries maturing at this height minus withdrawals", [1, 2]),
     19: ("a successful UNSTAKE left no maturing entry at height + maturity", [1, 2]),
+    20: ("a STAKE/UNSTAKE/WITHDRAW naming a frozen validator was accepted", []),
 }
 MM_CODES = {1: "ok/fail", 2: "balance change", 3: "st__e_", 4: "st__t_", 5: "st__d_e_", 6: "st__d_b_", 7: "st__m_", 8: "v_ record"}
 
